@@ -3,6 +3,7 @@
 # Applies <mutant-dir>/patch.diff to /repo, (with --full: demo fails, stable tests pass), runs the quick check, reverts.
 set -u
 P="$1"; D="$2"; FULL="${3:-}"
+V="$(dirname "$(dirname "$(realpath "$0")")")"   # the verification tree this script lives in
 R="${VERIF_REPO:-/repo}"   # the tree the change is applied to (a scratch clone when /repo itself is in use)
 export VERIF_REPO="$R"
 cd "$R"
@@ -13,7 +14,7 @@ if [ "$FULL" = "--full" ]; then
 fi
 git apply "$D/patch.diff"
 SRC="$R"/thejoker/src; SO=fast_likelihood.cpython-312-x86_64-linux-gnu.so
-restore() { cd "$R" && git checkout -- . ; if [ -f /tmp/try_mutant_c.bak ]; then mv /tmp/try_mutant_c.bak $SRC/fast_likelihood.c; mv /tmp/try_mutant_so.bak $SRC/$SO; fi; cd /verif && git checkout -- evidence 2>/dev/null; }
+restore() { cd "$R" && git checkout -- . ; if [ -f /tmp/try_mutant_c.bak ]; then mv /tmp/try_mutant_c.bak $SRC/fast_likelihood.c; mv /tmp/try_mutant_so.bak $SRC/$SO; fi; cd "$V" && git checkout -- evidence 2>/dev/null; }
 trap restore EXIT
 if [ -f "$D/c_patch.diff" ]; then
   # the change also edits the generated C (git-ignored): apply it to /repo's copy, rebuild the extension in place, restore both afterwards
@@ -25,7 +26,7 @@ if [ -f "$D/c_patch.diff" ]; then
 fi
 if [ "$FULL" = "--full" ]; then
   (cd /tmp && PYTHONPATH="$R" timeout 900 /venv/bin/python "$D/demo.py" >/tmp/demo_mut.log 2>&1); echo "demo on mutated tree: exit $?"
-  /verif/tools/baseline_check.py "$R" | head -5
+  "$V"/tools/baseline_check.py "$R" | head -5
 fi
-cd /verif && timeout 3000 ./check "$P" --tier quick > /tmp/mut_check.log 2>&1; rc=$?
+cd "$V" && timeout 3000 ./check "$P" --tier quick > /tmp/mut_check.log 2>&1; rc=$?
 echo "check exit: $rc"; grep -E "VIOLATION|KNOWN-FINDING|^\[$P\] tier" /tmp/mut_check.log | head -5
